@@ -96,9 +96,15 @@ def build(repo=None):
         if not any(f["qualname"].endswith("." + fname) for f in functions):
             functions.append({"qualname": f"jaxtyping._storage.{fname}", "sha256_16": mod.sha(fn), "lines": [fn.lineno, fn.end_lineno]})
         params = [a.arg for a in fn.args.args]
-        if len(params) != len(args):
+        n_def = len(fn.args.defaults)
+        if not (len(params) - n_def <= len(args) <= len(params)) or fn.args.vararg or fn.args.kwarg or fn.args.kwonlyargs:
             raise Unsupported(f"{fname}: signature {params}")
         st.env = dict(zip(params, args))
+        for pn, d in zip(params[len(params) - n_def:], fn.args.defaults):
+            if pn not in st.env:
+                # an added optional parameter: the callers under contract do not pass it
+                (s_d, dv), = eng.ev(d, st)
+                st.env[pn] = dv
         outs = eng.run(fn.body, st)
         paths += len(outs)
         return outs
